@@ -330,10 +330,32 @@ func (c *vfCase) WantSample() bool {
 
 func (c *vfCase) Logf(format string, args ...any) {
 	c.tmu.Lock()
-	if len(c.trace) < 4000 {
+	if len(c.trace) < 12000 {
 		c.trace = append(c.trace, fmt.Sprintf(format, args...))
 	}
 	c.tmu.Unlock()
+}
+
+// ResetTrace drops the trace collected so far (a case made of several independent runs keeps only the
+// trace of the run in progress).
+func (c *vfCase) ResetTrace() {
+	c.tmu.Lock()
+	c.trace = nil
+	c.tmu.Unlock()
+}
+
+// SetExhaustive marks the run as having enumerated its finite space completely.
+func (c *vfCase) SetExhaustive(v bool) {
+	c.run.mu.Lock()
+	c.run.res.Exhaustive = v
+	c.run.mu.Unlock()
+}
+
+// SetExtra adds a key to the coverage section of the evidence.
+func (c *vfCase) SetExtra(k string, v any) {
+	c.run.mu.Lock()
+	c.run.res.Extra[k] = v
+	c.run.mu.Unlock()
 }
 
 func (c *vfCase) Trace() []string {
